@@ -3,7 +3,7 @@ import Driver.Loop
 import NumqiModel.Channel
 
 namespace Numqi.Driver.C12
-open Numqi Numqi.Channel
+open Numqi Numqi.Channel Numqi.Gellmann
 
 def mat (cols : Nat) (l : Array GInt) : Nat → Nat → GInt := fun x y => l.getD (x * cols + y) 0
 def kraus (dout din : Nat) (l : Array GInt) : Nat → Nat → Nat → GInt := fun s a i => l.getD ((s * dout + a) * din + i) 0
@@ -51,8 +51,59 @@ def handleC2k (din dout evl evc : String) : String := Id.run do
   return s!"{nk}|" ++ gintListStr ((List.range nk).flatMap fun s => (List.range dout).flatMap fun a =>
     (List.range din).map fun i => K s a i)
 
+
+/-- `choi_op_to_bloch_map` on a Gaussian-integer Choi operator, scalars = the binary64 square roots taken exactly;
+output `matA | vecb` as exact rationals (row-major) -/
+def handleBloch (din dout : Nat) (l : Array GInt) : String := Id.run do
+  if l.size ≠ (din * dout) * (din * dout) || din = 0 || dout = 0 then return "bad-op"
+  let Sin := floatScalars din
+  let Sout := floatScalars dout
+  let C : Nat → Nat → QI := fun x y => QI.ofGInt (l.getD (x * (din * dout) + y) 0)
+  -- tabulate tmp1[(a,b)] once (same lists as `blochTmp1`)
+  let tmp1 : Array (Array QI) := ((List.range (dout * dout)).map fun ab =>
+    (analysis Sin din (fun j i : Fin din => C (i.val * dout + ab / dout) (j.val * dout + ab % dout))).toArray).toArray
+  let T : Nat → Nat → Nat → QI := fun a b μ => (tmp1.getD (a * dout + b) #[]).getD μ 0
+  let X : Array (Array QI) := ((List.range (din * din)).map fun μ =>
+    (analysis Sout dout (fun a b : Fin dout => T a.val b.val μ)).toArray).toArray
+  let gm : Nat → Nat → QI := fun ν μ => re Sout ((X.getD μ #[]).getD ν 0)
+  let two : QI := 1 + 1
+  let matA := (List.range (dout * dout - 1)).flatMap fun ν => (List.range (din * din - 1)).map fun μ => gm ν μ * two
+  let vecb := (List.range (dout * dout - 1)).map fun ν => gm ν (din * din - 1) * Sin.cI
+  return s!"{qiListStr matA}|{qiListStr vecb}"
+
+
+/-- binary64 instance of the three analytic operations (libm `log`, IEEE `sqrt`, `np.maximum` on non-NaN input) -/
+instance : Analytic Float := ⟨Float.log, Float.sqrt, fun a b => if a < b then b else a⟩
+
+def parseFloats? (s : String) : Option (List Float) :=
+  if s = "-" || s = "" then some [] else
+    (s.splitOn ";").mapM fun t => (t.toNat?).map fun b => Float.ofBits b.toUInt64
+
+/-- `spec ent <eps> <p>`, `spec fid <p> <q>`, `spec rel <eps> <p> <q>`; floats as bit patterns in and out -/
+def handleSpec (args : List String) : String :=
+  match args with
+  | ["ent", eps, p] => Id.run do
+      let some eps := parseFloats? eps | return "bad-op"
+      let some p := parseFloats? p | return "bad-op"
+      let [e] := eps | return "bad-op"
+      return toString (entropySpec e p).toBits
+  | ["fid", p, q] => Id.run do
+      let some p := parseFloats? p | return "bad-op"
+      let some q := parseFloats? q | return "bad-op"
+      if p.length ≠ q.length then return "bad-op"
+      return toString (fidelitySpec p q).toBits
+  | ["rel", eps, p, q] => Id.run do
+      let some eps := parseFloats? eps | return "bad-op"
+      let some p := parseFloats? p | return "bad-op"
+      let some q := parseFloats? q | return "bad-op"
+      let [e] := eps | return "bad-op"
+      if p.length ≠ q.length then return "bad-op"
+      return toString (relEntropySpec e p q).toBits
+  | _ => "bad-op"
+
 def handle (args : List String) : String :=
   match args with
+  | "spec" :: rest => handleSpec rest
   | [op, n, dout, din, k] => Id.run do
       if op = "apc" || op = "aps" then return handle2 op n dout din k
       if op = "c2k" then return handleC2k n dout din k
@@ -77,6 +128,7 @@ def handle (args : List String) : String :=
       if op = "s2c" then
         if l.size ≠ (dout * dout) * (din * din) then return "bad-op"
         return flat (din * dout) (din * dout) (superToChoi din dout (mat (din * din) l))
+      if op = "bloch" then return handleBloch din dout l
       if op = "hf2c" then
         if l.size ≠ (din * dout) * (din * dout) then return "bad-op"
         return flat (din * dout) (din * dout) (choiOfMap dout (applyChoi din dout (mat (din * dout) l)))
